@@ -19,6 +19,12 @@ search : the definitions evaluated in `fractions.Fraction` on M[L1][:, L2] block
          dtypes / layouts (bit-identical) and rescaled by powers of two (exactly equivariant);
          returned arrays not aliased; library state intact after the history; every
          CoupledClimateNetwork wrapper incl. link_attribute; subnetwork; betweenness
+round 4: cross_/internal_/nsi_cross_betweenness inside the model (C03's kernel model behind the
+         delegation chain), compared with the implementation on every case and with the published
+         double sum inside Lean on a sample; whole-network relations of closeness / efficiency /
+         n.s.i. closeness row by row, connected or not; Network.global_efficiency /
+         closeness(attr) / interregional_betweenness / nsi_betweenness / path_lengths (BFS) in
+         the `net` correspondence; wrapped integer accumulation (sumW) against numpy
 """
 import contextlib
 import io
